@@ -574,7 +574,17 @@ class Sdpa(OpSpec):
             "dropout_p": p,
             "is_causal": cfg["is_causal"],
             "mult": pos_real(ctx, "mult"),
-        }, {}
+        }, {"s": s, "p": p}
+
+    def extra(self, p: PathResult, cfg: Any, args: Any, meta: Any, res: Any, k: Any, bs: Any) -> None:
+        if k is not None:
+            # C04: the empirical output scale lies between its sharp limit sqrt(1-p) (one key attended to)
+            # and its flat limit sqrt((1-p) * s / L), L = log(s) for causal attention, 1 otherwise
+            from pyvc.sym import num_log
+
+            s_, p_ = zreal(meta["s"]), zreal(meta["p"])
+            L = zreal(num_log(p.ctx, meta["s"])) if cfg["is_causal"] else z3.RealVal(1)
+            _between(p.ctx, "C04:functional.scaled_dot_product_attention:output_scale_between_sharp_and_flat_limit", k, 1 - p_, (1 - p_) * s_ / L)
 
 
 class CrossEntropy(OpSpec):
@@ -646,7 +656,7 @@ def _key(spec: OpSpec, cfg: Dict[str, Any]) -> str:
 
 for _spec in OPS:
     for _cfg in _spec.configs():
-        register(Job(_key(_spec, _cfg), ["C01", "C02", "C03", "C05"] + (["C04"] if _spec.name in ("cross_entropy", "gelu", "silu", "silu_glu", "softmax", "layer_norm", "rms_norm") else []), UF + _spec.name, _cfg, op_job(_spec, _cfg)))
+        register(Job(_key(_spec, _cfg), ["C01", "C02", "C03", "C05"] + (["C04"] if _spec.name in ("cross_entropy", "gelu", "silu", "silu_glu", "softmax", "layer_norm", "rms_norm", "scaled_dot_product_attention") else []), UF + _spec.name, _cfg, op_job(_spec, _cfg)))
 
 
 # ------------------------------------------------------------------ C01: argument guard
